@@ -21,7 +21,7 @@
    peerNodeID, and a heartbeat lacking this group's status is the event [ETouch]: every theorem over
    [run] / [frun] histories therefore also speaks about a group inside a multi-group Manager.
    [ids_ok cs]: the two node ids are non-empty and different Go strings. *)
-From OV Require Import Common.Base C10.Model C10.Fine C10.Stale C10.Proofs C10.FineAtomic C10.FineProofs.
+From OV Require Import Common.Base C10.Model C10.Fine C10.Stale C10.Timer C10.Proofs C10.FineAtomic C10.FineProofs.
 Local Open Scope Z_scope.
 
 (* ---- election is deterministic (a function) and antisymmetric ---- *)
@@ -448,6 +448,44 @@ Example C10_fine_priority_matches_count_refuted :
   n_eff (p_a (f_p (frun Repaired cs_design (finit cs_design) es))) = 100.
 Proof. vm_compute. repeat split. Qed.
 Print Assumptions C10_fine_priority_matches_count_refuted.
+
+(* ---- timer ticks: HeartbeatLoop.checkPeerTimeout + Manager.hasWaitingSRGs (Timer.v) ---- *)
+(* a tick is [tick_calls] (0, 1 or 2) peer-loss detections, i.e. a piece of a [run] history: all theorems above
+   cover timer-driven losses.  What the timer itself guarantees: *)
+Theorem C10_tick_quiet : forall v cs s w i,
+  t_conn i = true -> t_hbold i = false -> t_skew i = false -> run_tick v cs s w i = s.
+Proof. exact tick_quiet. Qed.
+Print Assumptions C10_tick_quiet.
+
+(* start-up: a WAITING group whose peer never connected becomes ACTIVE_SOLO exactly when the timeout has expired *)
+Theorem C10_tick_startup : forall v cs s w i,
+  n_st (node_of w s) = Waiting -> t_conn i = false ->
+  n_st (node_of w (run_tick v cs s w i)) = if t_upexp i then ActiveSolo else Waiting.
+Proof. exact tick_startup. Qed.
+Print Assumptions C10_tick_startup.
+
+(* whatever a tick sees (also the double detection "heartbeat too old AND clock skew refused"): a STANDBY group
+   ends STANDBY or STANDBY_ALONE, or ACTIVE_SOLO only with a tracked interface down *)
+Theorem C10_tick_never_promotes_standby : forall v cs s w i,
+  n_st (node_of w s) = Standby ->
+  let st' := n_st (node_of w (run_tick v cs s w i)) in
+  st' = Standby \/ st' = StandbyAlone \/ (st' = ActiveSolo /\ 0 < n_cnt (node_of w s)).
+Proof. exact tick_standby. Qed.
+Print Assumptions C10_tick_never_promotes_standby.
+
+Example C10_tick_nonvacuous :
+  let s := run Head cs_plain (init_pair cs_plain) [EStart A] in
+  n_st (p_a (run_tick Head cs_plain s A (mkTick false true false false false))) = ActiveSolo /\
+  n_st (p_a (run_tick Head cs_plain s A (mkTick false false false false false))) = Waiting /\
+  tick_calls (mkTick true false true true false) Standby = 2%nat /\
+  (let s2 := run Head cs_plain (init_pair cs_plain) to_standby_a in
+   n_st (p_a s2) = Standby /\
+   n_st (p_a (run_tick Head cs_plain s2 A (mkTick true false true true false))) = StandbyAlone /\
+   (* node-global hasWaitingSRGs: another WAITING group makes the tick hit this STANDBY group too *)
+   n_st (p_a (run_tick Head cs_plain s2 A (mkTick false true false false true))) = StandbyAlone /\
+   n_st (p_a (run_tick Head cs_plain s2 A (mkTick false true false false false))) = Standby).
+Proof. vm_compute. repeat split. Qed.
+Print Assumptions C10_tick_nonvacuous.
 
 (* ---- configurations outside the no-overflow domain ---- *)
 (* there the effective priority after an interface notification is [c_over c count], any function: every
